@@ -294,6 +294,26 @@ func init() {
 				return true
 			})
 		}
+		// proposed repair of F63: sortedChunks.apply hands what lightFill has read now to a known entry that could not be filled
+		// before (an assignment to the Recs of an element of its argument)
+		refills := false
+		if fd := funcDecl(fc, "sortedChunks", "apply"); fd != nil && len(fd.Type.Params.List) > 0 && len(fd.Type.Params.List[0].Names) > 0 {
+			arg := fd.Type.Params.List[0].Names[0].Name
+			ast.Inspect(fd.Body, func(n ast.Node) bool {
+				if as, ok := n.(*ast.AssignStmt); ok {
+					for _, l := range as.Lhs {
+						if se, ok := l.(*ast.SelectorExpr); ok && se.Sel.Name == "Recs" {
+							if ie, ok := se.X.(*ast.IndexExpr); ok {
+								if id, ok := ie.X.(*ast.Ident); ok && id.Name == arg {
+									refills = true
+								}
+							}
+						}
+					}
+				}
+				return true
+			})
+		}
 		staleRepair := onWriteSetsRecs && lightFillSetsRecs && dropsStale && dropStaleStrict
 		if (onWriteSetsRecs || lightFillSetsRecs || dropsStale) && !staleRepair {
 			problem("cindex: the stale-entry handling (onWrite/lightFill set Recs, syncChunks calls dropStale, stale = Count() > Recs) is only partly recognised: onWrite=%v lightFill=%v syncChunks=%v strict=%v", onWriteSetsRecs, lightFillSetsRecs, dropsStale, dropStaleStrict)
@@ -550,6 +570,8 @@ func init() {
 		l.p("def staleDropOnlyForSnapshotEntries : Bool := %s", leanBool(dropOnlyLoaded && onWriteLoadedMiddle))
 		l.p("/-- `syncChunks`' second critical section keeps a known chunk that is newer than the last chunk of the caller's list (repair of F53); false: every known chunk missing from the list is forgotten -/")
 		l.p("def syncChunksKeepsNewerChunks : Bool := %s", leanBool(keepsNewer))
+		l.p("/-- `syncChunks` fills a KNOWN entry that accounts for no record (`Recs = 0`: empty chunk, or a `lightFill` that could not read) when the chunk has records now (proposed repair of F63); false: what `lightFill` reads for a known entry is thrown away by the second `apply` -/")
+		l.p("def syncChunksRefillsUnfilledEntries : Bool := %s", leanBool(refills))
 		l.p("/-- `onWrite` leaves the index alone for a notification that arrives late (`lastRec <= last.lastRec`), and never lowers `Recs` (proposed repair of F62); false: the late interval is merged behind the newer point and `Recs` goes down -/")
 		l.p("def onWriteSkipsLateNotification : Bool := %s", leanBool(skipsLate))
 		l.p("def onWriteRecsNeverDecrease : Bool := %s", leanBool(recsGuarded))
